@@ -122,6 +122,7 @@ theorem nfInv_setBefore {e : Expr} (h : e.nfInv) {b : List Trivia} (hb : Alt b) 
   | sel => exact h.elim
   | selOr => exact h.elim
   | lam => exact h.elim
+  | un => exact h.elim
 
 theorem nfInv_addAfter {e : Expr} (h : e.nfInv) (hc : closedT (e.effAfter false)) {ts : List Trivia} (hts : Alt ts) :
     (e.addAfter ts).nfInv := by
@@ -141,6 +142,7 @@ theorem nfInv_addAfter {e : Expr} (h : e.nfInv) (hc : closedT (e.effAfter false)
   | sel => exact h.elim
   | selOr => exact h.elim
   | lam => exact h.elim
+  | un => exact h.elim
 
 theorem closedT_append {a b : List Trivia} (ha : closedT a) (hb : closedT b) : closedT (a ++ b) := by
   rcases hb with h | ⟨c, hc⟩
@@ -598,6 +600,7 @@ theorem cst_nf : (c : Cst) → c.wf = true → c.basic = true → ∀ (e : Expr)
   | .sel .., _, hbs, _, _ => by simp [Cst.basic] at hbs
   | .selOr .., _, hbs, _, _ => by simp [Cst.basic] at hbs
   | .lam .., _, hbs, _, _ => by simp [Cst.basic] at hbs
+  | .un .., _, hbs, _, _ => by simp [Cst.basic] at hbs
   | .paren its cg, hwf, hbs, e, hp => by
     simp only [Cst.wf, Bool.and_eq_true, beq_iff_eq] at hwf
     simp only [Cst.parse] at hp
@@ -942,6 +945,7 @@ theorem inlineClean_of_B : (e : Expr) → e.inlineCleanB = true → e.inlineClea
   | .sel .., h => by simp [Expr.inlineCleanB] at h
   | .selOr .., h => by simp [Expr.inlineCleanB] at h
   | .lam .., h => by simp [Expr.inlineCleanB] at h
+  | .un .., h => by simp [Expr.inlineCleanB] at h
 theorem allInlineClean_of_B : (es : List Expr) → allInlineCleanB es = true → allInlineClean es
   | [], _ => trivial
   | e :: rest, h => by
